@@ -135,3 +135,16 @@ Fixpoint exec (w s : N) (st : wstate) (evs : list (N * N)) : wstate :=
   end.
 
 Definition run (w s : N) (evs : list (N * N)) : list firing := run_from w s init 0 evs.
+
+(* Delivery.  On a firing add_to_window first sends a clone of the content to the channel consumer, if one was
+   registered with register() - a failed send (the Receiver was dropped) is only logged (`warn!`) - and then
+   calls the callback consumer, if one was registered.  Neither outcome feeds back into the window: app_time
+   was set before, `self.active_windows = test` follows unconditionally.  So every consumer sees the firings of
+   `run`; a channel whose Receiver is dropped just before event number d has received those of the events
+   before d.  (Checked on one window carrying both consumers, stream "both" of checks/c09.py.) *)
+Definition callback_view (fs : list firing) : list firing := fs.
+Definition channel_view (drop : option N) (fs : list firing) : list firing :=
+  match drop with
+  | None => fs
+  | Some d => filter (fun f => fidx f <? d) fs
+  end.
